@@ -279,8 +279,20 @@ func (x *Exec) arrayToStorage(st *State, id string, t types.Type, v Val) {
 
 func (x *Exec) elemFieldAddr(base Val, field int) Val {
 	stt := base.A.T.Underlying().(*types.Struct)
-	_ = stt
-	panic(oos("address of a field of a slice element of struct type (not modelled)"))
+	lo := 0
+	for i := 0; i < field; i++ {
+		lo += len(comps(stt.Field(i).Type()))
+	}
+	ft := stt.Field(field).Type()
+	a := *base.A
+	if a.ElemT == nil {
+		a.ElemT = base.A.T
+		a.CompLo = 0
+	}
+	a.CompLo += lo
+	a.CompN = len(comps(ft))
+	a.T = ft
+	return Val{K: KAddr, T: types.NewPointer(ft), A: &a}
 }
 
 func (x *Exec) binop(fr *Frame, st *State, v *ssa.BinOp) Val {
@@ -427,7 +439,13 @@ func (x *Exec) valEq(a, b Val) string {
 			cs = append(cs, e)
 		}
 		return sAnd(cs...)
-	case KAddr, KTuple:
+	case KAddr:
+		// the address of a field or element is never nil
+		if b.K == KRef && b.S == "0" {
+			return "false"
+		}
+		return ""
+	case KTuple:
 		return ""
 	case KFloat:
 		if b.K == KFloat {
@@ -437,6 +455,9 @@ func (x *Exec) valEq(a, b Val) string {
 	}
 	if b.K == KSlice {
 		return x.valEq(b, a)
+	}
+	if b.K == KAddr && a.K == KRef && a.S == "0" {
+		return "false"
 	}
 	if b.K == KStruct || b.K == KAddr || b.K == KTuple {
 		return ""
@@ -615,8 +636,10 @@ func (x *Exec) makeSlice(fr *Frame, st *State, v *ssa.MakeSlice) Val {
 		panic(oos("make with unmodelled size"))
 	}
 	x.guard(fr, st, v, "make", sAnd(sLe("0", ln.S), sLe(ln.S, cp.S), sLe(cp.S, capLimit)))
-	if fr.con != nil && fr.con.Opts["alloc-bound"] != "" {
-		x.check(fr, st, x.label(fr.fn, v, "make")+".alloc-bound", "alloc-bound", sLe(cp.S, fr.con.Opts["alloc-bound"]), v)
+	if fr.con != nil && fr.con.Opts["alloc-bound"] != "" && fr.depth == 0 {
+		// every allocation sized by this function must satisfy the declared bound ($size = requested capacity)
+		c := mkClause(fr.con.Opts["alloc-bound"], fr.con.Where)
+		x.specCheck(fr, st, x.label(fr.fn, v, "make")+".alloc-bound", "alloc-bound", c, map[string]Val{"__size": intVal(cp.S, types.Typ[types.Int])}, v)
 	}
 	r := x.allocRef(st)
 	et := v.Type().Underlying().(*types.Slice).Elem()
